@@ -412,16 +412,24 @@ pub fn run(pid: &str, seed: u64, n: usize, out: &Path, _thorough: bool) -> anyho
                 hist.push(format!("({}, {}, {})", caop(&uni, op), r, clist(&evs, |(c, ev)| format!("({}, {})", c, cevent(ev)))));
                 jh.push(format!("[\"{}\",\"{}\",{}]", jaop(op), r.replace('"', "'").chars().take(80).collect::<String>(), evs.len()));
             }
-            // shutdown hands the store back
-            let mut store = client.handle.shutdown().await?;
+            // shutdown hands the store back; a request issued by another task at the same moment
+            // (queued behind the shutdown request) must be answered, not left waiting forever
+            let h2 = client.handle.clone();
+            let some_doc = NamespaceId::from(&uni.docs[0].0);
+            let (store, inflight) = tokio::join!(
+                client.handle.shutdown(),
+                tokio::time::timeout(std::time::Duration::from_secs(2), async move { h2.get_state(some_doc).await.is_ok() })
+            );
+            let mut store = store?;
+            let inflight_answered = inflight.is_ok();
             let mut fin = Vec::new();
             for d in &uni.docs {
                 let l = all_entries(&mut store, NamespaceId::from(&d.0))?;
                 fin.push(format!("({}, {})", n256(&d.0), clist(&l, centry)));
             }
             drop(store);
-            let coq = format!("(mkCase {} [{}] [{}])", code, hist.join("; "), fin.join("; "));
-            let json = format!("{{\"store\":\"{}\",\"history\":[{}]}}", if persistent { "file" } else { "memory" }, jh.join(","));
+            let coq = format!("(mkCase {} [{}] [{}] {})", code, hist.join("; "), fin.join("; "), cbool(inflight_answered));
+            let json = format!("{{\"store\":\"{}\",\"history\":[{}],\"request_in_flight_at_shutdown_answered\":{}}}", if persistent { "file" } else { "memory" }, jh.join(","), inflight_answered);
             anyhow::Ok((coq, json, interesting))
         })?;
         stats.add("requests", ops.len() as u64);
